@@ -39,7 +39,7 @@ partial def treeT (h : HashFn) : PT Node := do
     match parseHex x with
     | some b => if b.length != 32 then throw "data leaf must be 32 bytes" else pure (.leaf b)
     | none => throw s!"bad hex {x}"
-  | "Z" => do
+  | "Z" | "Y" => do   -- `Y k`: value-equal copy of the zero node (a distinct object in Go; same node in the model)
     let kt ← nextT
     match kt.toNat? with
     | none => throw s!"bad number {kt}"
